@@ -74,7 +74,9 @@ pub fn magnitude_below_max_safe_int(f: f64) -> (r: bool) ensures r == below_max_
 pub assume_specification<T, F: FnOnce(T) -> bool>[Option::<T>::is_some_and](o: Option<T>, f: F) -> (r: bool)
     requires o is Some ==> f.requires((o->0,))
     ensures match o { Some(x) => f.ensures((x,), r), None => !r };
-pub proof fn axiom_str_ext() ensures forall|a: &str, b: &str| #![trigger a@, b@] a@ =~= b@ ==> a == b { admit(); }
+// &str values with the same characters are equal (what a string-literal pattern compares) -- assumed axiom, as in unit coordinate
+#[verifier::external_body]
+pub proof fn axiom_str_ext() ensures forall|a: &str, b: &str| #![trigger a@, b@] a@ =~= b@ ==> a == b { }
 #[verifier::external_body]
 pub struct EnumValues { x: u8 }
 impl EnumValues { pub uninterp spec fn view(&self) -> Set<Seq<char>>; }
